@@ -9,6 +9,7 @@ from ..exact import exact_values, Unsupported
 from ..storejudge import init_arguments
 
 ID = 'C06'
+TECHNIQUE = 'runtime monitoring: constructor events with unspecified sizes judged against an exact minimal-format model; capped case judged by error bound and flag'
 TITLE = 'size inference exact and minimal'
 RULE = ('constructor events with n_word and/or n_frac unspecified (default configuration, no like/template/dtype): the inferred format must equal '
         'the model (fewest fraction bits making all dyadic inputs exact, then fewest word bits with non-negative integer length plus sign; only '
